@@ -38,6 +38,8 @@ def seeded():
         m = json.load(open(mp))
         pid = m["property"]
         c = m.get("checks", {}).get(pid, {})
+        if m.get("kind") == "benign":
+            continue
         if c.get("violations") and not (c.get("no_failing_input") and "replay" not in c):
             res = "VIOLATION with input: " + c.get("replay", "")[:150].replace("|", "\\|")
         elif c.get("violations"):
@@ -56,5 +58,27 @@ def seeded():
                                                   "47 pass" if m.get("tests_pass") else "?", res, rp))
 
 
+def benign():
+    print("| refactoring | change (from the author's notes) | existing tests | check result |")
+    print("|---|---|---|---|")
+    for d in sorted(glob.glob(os.path.join(VERIF, "seeded", "*"))):
+        mp = os.path.join(d, "meta.json")
+        if not os.path.exists(mp):
+            continue
+        m = json.load(open(mp))
+        if m.get("kind") != "benign":
+            continue
+        c = m.get("checks", {}).get(m["property"], {})
+        if not c.get("violations"):
+            res = "exit 0, no alarm"
+        elif "replay" in c:
+            res = "ALARM with input: " + c.get("replay", "")[:150].replace("|", "\\|")
+        else:
+            res = "tie broken, no-failing-input-found (" + "; ".join(
+                l.strip()[:90] for l in c.get("lines", []) if "broken" in l)[:200].replace("|", "\\|") + ")"
+        print("| {} | {} | {} | {} |".format(os.path.basename(d), first_sentence(os.path.join(d, "notes.md")),
+                                             "47 pass" if m.get("tests_pass") else "?", res))
+
+
 if __name__ == "__main__":
-    {"findings": findings, "seeded": seeded}[sys.argv[1]]()
+    {"findings": findings, "seeded": seeded, "benign": benign}[sys.argv[1]]()
